@@ -61,7 +61,7 @@ def register(w):
                      "append-only while processing; async: creates a task); never touches the after-timer table; bounded.c09")
         c.no_runtime = True
         c.param("invocation", Inv).param("service", OPAQUE).param("owner_id", STR)
-        c.mod("self._actors", "self._scheduled_sends", "self._pending_send_cancels", Q, ACC, "self.context")
+        c.mod("self._actors", "self._scheduled_sends", "self._pending_send_cancels", "self._raise_depth", Q, ACC, "self.context")
         c.ens(APP, label="ghost:queue-append-only")
         c.may_raise("Exception", ensures=["ghost:" + APP])
 
@@ -69,7 +69,7 @@ def register(w):
     def _(c):
         c.no_runtime = True
         c.param("state", Node)
-        c.mod(AE, "self._after_threads", "self._actors", "self._scheduled_sends", "self._pending_send_cancels", Q, ACC, "self.context")
+        c.mod(AE, "self._after_threads", "self._actors", "self._scheduled_sends", "self._pending_send_cancels", "self._raise_depth", Q, ACC, "self.context")
         c.req("state != None")
         # several delays on one state (and those of other states) are independent: arming never touches an existing timer
         c.ens(f"forall[str](lambda k: implies(k in old({AE}), k in {AE} and {AE}[k] == old({AE})[k]))", label="existing-timers-untouched")
